@@ -25,6 +25,7 @@ class ScriptedSSL:
         self.shutdown = shutdown
         self.app_data = None
         self.alpn = None
+        self.send_fail = None
 
     def __bool__(self):
         return True
@@ -52,6 +53,8 @@ class ScriptedSSL:
         return self.outbox.pop(0)
 
     def sendall(self, data):
+        if self.send_fail is not None:
+            raise self.send_fail(-1, "Unexpected EOF")
         self.sent.append(data)
         self.outbox.append(data)
         return len(data)
@@ -85,6 +88,318 @@ class ScriptedSSL:
         return "TLSv1.3"
 
 
-def mk_ssl(vc, plain=(), outbox=(), handshake=(), shutdown=0):
+def mk_ssl(vc, plain=(), outbox=(), handshake=(), shutdown=0, send_fail=None):
     return vc.new("props.tlsstub:ScriptedSSL", inbox=vc.list([]), plain=vc.list(list(plain)), outbox=vc.list(list(outbox)), sent=vc.list([]),
-                  handshake=vc.list(list(handshake)), shutdown=shutdown, app_data=None, alpn=None)
+                  handshake=vc.list(list(handshake)), shutdown=shutdown, app_data=None, alpn=None, send_fail=send_fail)
+
+
+# ---------------------------------------------------------------------------------------------
+# cryptography stand-ins for C16/C17 (what mitmproxy.certs reads from / writes to cryptography objects)
+
+
+class StubAttr:
+    def __init__(self, value):
+        self.value = value
+
+
+class StubName:
+    """x509.Name stand-in: attributes by OID"""
+
+    def __init__(self, attrs):
+        self.attrs = attrs  # list of (oid, value)
+
+    def get_attributes_for_oid(self, oid):
+        return [StubAttr(v) for o, v in self.attrs if o == oid]
+
+
+class StubExt:
+    def __init__(self, value):
+        self.value = value
+
+
+class StubExtensions:
+    def __init__(self, by_class):
+        self.by_class = by_class  # list of (extension class, value)
+
+    def get_extension_for_class(self, cls):
+        from cryptography import x509
+
+        for c, v in self.by_class:
+            if c is cls:
+                return StubExt(v)
+        raise x509.ExtensionNotFound("no such extension", None)
+
+
+class StubPublicKey:
+    def __init__(self, ident):
+        self.ident = ident
+
+
+class StubX509:
+    """x509.Certificate stand-in"""
+
+    def __init__(self, subject, extensions, pubkey):
+        self.subject = subject
+        self.extensions = extensions
+        self.pubkey = pubkey
+
+    def public_key(self):
+        return self.pubkey
+
+
+class StubDistPoint:
+    def __init__(self, full_name):
+        self.full_name = full_name
+
+
+class RecordingBuilder:
+    """x509.CertificateBuilder stand-in: records every call (effect trace); sign() returns a ghost certificate"""
+
+    def __init__(self):
+        self.calls = []
+        self.extensions = []
+
+    def issuer_name(self, name):
+        self.calls.append(("issuer_name", name))
+        return self
+
+    def subject_name(self, name):
+        self.calls.append(("subject_name", name))
+        return self
+
+    def public_key(self, key):
+        self.calls.append(("public_key", key))
+        return self
+
+    def serial_number(self, n):
+        self.calls.append(("serial_number", n))
+        return self
+
+    def not_valid_before(self, t):
+        self.calls.append(("not_valid_before", t))
+        return self
+
+    def not_valid_after(self, t):
+        self.calls.append(("not_valid_after", t))
+        return self
+
+    def add_extension(self, ext, critical):
+        self.calls.append(("add_extension", ext, critical))
+        self.extensions.append((ext, critical))
+        return self
+
+    def sign(self, private_key, algorithm):
+        self.calls.append(("sign", private_key, algorithm))
+        return SignedGhost(self)
+
+
+class SignedGhost:
+    def __init__(self, builder):
+        self.builder = builder
+
+
+class SymTime:
+    """datetime stand-in in proof mode: days since an arbitrary epoch"""
+
+    def __init__(self, days):
+        self.days = days
+
+    def __add__(self, delta):
+        return SymTime(self.days + delta.days)
+
+
+def mk_stub_x509(vc, attrs=(), exts=(), pubkey=None):
+    me = "props.tlsstub"
+    return vc.new(f"{me}:StubX509", subject=vc.new(f"{me}:StubName", attrs=vc.list([(o, v) for o, v in attrs])),
+                  extensions=vc.new(f"{me}:StubExtensions", by_class=vc.list([(c, v) for c, v in exts])),
+                  pubkey=pubkey if pubkey is not None else vc.new(f"{me}:StubPublicKey", ident="pk"))
+
+
+# ---------------------------------------------------------------------------------------------
+# stand-in for the `OpenSSL.SSL` module as used by TlsConfig.tls_start_server (C15): every FFI call lands in one trace
+
+
+class FakeLib:
+    def __init__(self, trace, rc):
+        self.trace = trace
+        self.rc = rc
+
+    def SSL_get0_param(self, ssl):
+        self.trace.append(("SSL_get0_param", ssl))
+        return ("param-of", ssl)
+
+    def X509_VERIFY_PARAM_set_hostflags(self, param, flags):
+        self.trace.append(("set_hostflags", param, flags))
+
+    def X509_VERIFY_PARAM_set1_host(self, param, name, n):
+        self.trace.append(("set1_host", param, name, n))
+        return self.rc
+
+    def X509_VERIFY_PARAM_set1_ip(self, param, ip, n):
+        self.trace.append(("set1_ip", param, ip, n))
+        return self.rc
+
+
+class FakeConn:
+    def __init__(self, trace, ctx):
+        self.trace = trace
+        self.ctx = ctx
+        self._ssl = ("ssl-of", ctx)
+
+    def __bool__(self):
+        return True
+
+    def set_tlsext_host_name(self, name):
+        self.trace.append(("set_tlsext_host_name", name))
+
+    def set_alpn_protos(self, protos):
+        self.trace.append(("set_alpn_protos", protos))
+
+    def set_connect_state(self):
+        self.trace.append(("set_connect_state",))
+
+
+class FakeSSLModule:
+    def __init__(self, trace, rc):
+        self.trace = trace
+        self._lib = FakeLib(trace, rc)
+
+    def Connection(self, ctx):
+        self.trace.append(("Connection", ctx))
+        return FakeConn(self.trace, ctx)
+
+    def _openssl_assert(self, ok):
+        if not ok:
+            raise SSL.Error([("x509", "", "openssl assertion failed")])
+
+
+def mk_fake_ssl_module(vc, rc):
+    me = "props.tlsstub"
+    trace = vc.list([])
+    mod = vc.new(f"{me}:FakeSSLModule", trace=trace, _lib=vc.new(f"{me}:FakeLib", trace=trace, rc=rc))
+    return mod, trace
+
+
+def patch_global(vc, modname, name, value):
+    """make the module-level name `modname.name` evaluate to `value` for the code under contract (both modes; restored
+    after a native run, per path in proof mode)"""
+    if vc.mode == "sym":
+        vc.ex.module_globals[(modname, name)] = vc.lift(value)
+    else:
+        import importlib
+
+        m = importlib.import_module(modname)
+        vc._patches.append((m, name, getattr(m, name), True))
+        setattr(m, name, value)
+
+
+class FakeContext:
+    """OpenSSL.SSL.Context stand-in for net.tls._create_ssl_context / create_proxy_server_context"""
+
+    def __init__(self, trace, method):
+        self.trace = trace
+        self.method = method
+        self._context = ("ctx-ptr", method)
+        self.fail_load = False
+
+    def set_options(self, o):
+        self.trace.append(("set_options", o))
+
+    def set_cipher_list(self, c):
+        self.trace.append(("set_cipher_list", c))
+
+    def set_tmp_ecdh(self, c):
+        self.trace.append(("set_tmp_ecdh", c))
+
+    def set_keylog_callback(self, c):
+        self.trace.append(("set_keylog_callback", c))
+
+    def set_verify(self, mode, cb):
+        self.trace.append(("set_verify", mode, cb))
+
+    def load_verify_locations(self, cafile, capath):
+        self.trace.append(("load_verify_locations", cafile, capath))
+        if self.fail_load:
+            raise SSL.Error([("x509", "", "no such file")])
+
+    def use_privatekey_file(self, f):
+        self.trace.append(("use_privatekey_file", f))
+
+    def use_certificate_chain_file(self, f):
+        self.trace.append(("use_certificate_chain_file", f))
+
+
+class FakeCtxLib:
+    def __init__(self, trace):
+        self.trace = trace
+
+    def SSL_CTX_set_min_proto_version(self, ctx, v):
+        self.trace.append(("min_proto", ctx, v))
+        return 1
+
+    def SSL_CTX_set_max_proto_version(self, ctx, v):
+        self.trace.append(("max_proto", ctx, v))
+        return 1
+
+    def SSL_CTX_set_post_handshake_auth(self, ctx, v):
+        self.trace.append(("post_handshake_auth", ctx, v))
+
+
+class FakeSSLModuleCtx:
+    Error = SSL.Error
+    VERIFY_NONE = SSL.VERIFY_NONE
+    VERIFY_PEER = SSL.VERIFY_PEER
+
+    def __init__(self, trace, fail_load):
+        self.trace = trace
+        self._lib = FakeCtxLib(trace)
+        self.fail_load = fail_load
+
+    def Context(self, method):
+        c = FakeContext(self.trace, method)
+        c.fail_load = self.fail_load
+        self.trace.append(("Context", method))
+        return c
+
+
+class StreamSSL:
+    """ScriptedSSL variant for inductive contracts: `plain` is a (symbolic-length) list of plaintext chunks that recv() returns
+    in order; when it is exhausted recv() ends with `end` (WANT / ZERO / ERROR)."""
+
+    def __init__(self, plain, end, outbox=()):
+        self.inbox = []
+        self.plain = plain
+        self.end = end
+        self.outbox = list(outbox)
+        self.sent = []
+        self.shutdown = 0
+
+    def __bool__(self):
+        return True
+
+    def bio_write(self, data):
+        self.inbox.append(data)
+        return len(data)
+
+    def recv(self, n):
+        if len(self.plain) == 0:
+            if self.end == ZERO:
+                self.shutdown = SSL.RECEIVED_SHUTDOWN
+                raise SSL.ZeroReturnError()
+            if self.end == ERROR:
+                raise SSL.Error([("SSL routines", "", "sslv3 alert certificate unknown")])
+            raise SSL.WantReadError()
+        return self.plain.pop(0)
+
+    def bio_read(self, n):
+        if len(self.outbox) == 0:
+            raise SSL.WantReadError()
+        return self.outbox.pop(0)
+
+    def sendall(self, data):
+        self.sent.append(data)
+        self.outbox.append(data)
+        return len(data)
+
+    def get_shutdown(self):
+        return self.shutdown
